@@ -74,3 +74,20 @@ CLAIMED['C13'] = dict(
     text='First-round and later-round openers of button games for symbolic stacks, blinds, straddle and post amounts; stud bring-in for every pair/triple of door cards; '
          'later stud streets with symbolic exposed-hand strengths (real _begin_betting, stubbed private lookups).',
     note='standard layouts only; known finding F13 (heads-up equal blinds) carved out; opening lookup tables themselves are C04')
+CHOICE = ('bounded symbolic exploration of the real code: every choice (fold bits, masks, counts, preferences, orders, automation bits) is a solver variable decided '
+          'through the CrossHair/z3 search tree, the real code runs natively between decisions; all feasible choice vectors within the bounds are exhausted')
+CLAIMED['C06'] = dict(
+    technique=CHOICE + '; card-partition monitor after every logged operation',
+    text='After every operation of every explored history the six card containers partition the configured deck; reserves are recycled only when the deck is short; '
+         'explicit/unknown cards never duplicate a known card. Covers draw games with exhaustion in later draws and 8-handed stud (52-card exhaustion and board fallback).',
+    note='weakest fit of the technique family (discrete state, finite choice spaces); chips and card identities concrete; deck order stub')
+CLAIMED['C10'] = dict(
+    technique=CHOICE + '; dealing oracle computed from the Street tuples',
+    text='Per street: prescribed hole cards and facing for every live player, prescribed board cards per board, burn first iff prescribed, dealee order, no betting before dealing '
+         'is complete, draws return as many cards with the same facing, board fallback when the cards cannot cover a stud street; Street validation on symbolic values.',
+    note='as C06; custom mixed up/down + draw street list included')
+CLAIMED['C14'] = dict(
+    technique=CHOICE + '; plus traced parametric-evaluator jobs for pot division over boards',
+    text='All-in on every street x preference vectors in {None,1,2,3} x every selection order x select-before/after-show: offering conditions, asked exactly once, consensus rule, '
+         'b*r complete boards sharing exactly the pre-all-in cards, pots divided evenly over boards (odd chips to board 0), chips conserved.',
+    note='concrete chips/cards in the choice family; n<=3; hold\'em/PLO only')
